@@ -315,6 +315,8 @@ def check_users(chk) -> None:
     c18e.check_chi(chk)
     # the coordinates the table is computed from are the current ones (no answer remembered across a change of the frame)
     c18e.check_lookup_current(chk)
+    # ... and are never written in place by code that merely borrowed the array (atom.coordinates is one array per atom)
+    c18e.check_borrowed_arrays(chk)
     c03.check_cis_trans(chk)
     c11.check_bph(chk)
     # chi_class: radians against radians, evaluated on one chi per cell
@@ -351,7 +353,7 @@ def run(chk) -> None:
         "floating-point error is not decided",
         "input in the domain of the property (bond lengths 0.8-2.5 A, bond angles 20-160 degrees): a conditional normalisation `v / |v| if |v| > eps else v` whose threshold is below half the smallest value of that norm on the domain takes its first branch; any other conditional stays 'a positive multiple of the same vector'",
     ]
-    chk.robust |= {"torsion-closed-form", "clip-noop", "chi-atoms", "chi-agree", "chi-bases", "backbone-atoms", "cis-trans", "cis-trans-atoms", "bph-split", "bph-class-table", "chi-class-units", "chi-dispatch", "degenerate-guard", "torsion-returned", "torsion-wrapper", "interstem-points", "lookup-current-state"}
+    chk.robust |= {"torsion-closed-form", "clip-noop", "chi-atoms", "chi-agree", "chi-bases", "backbone-atoms", "cis-trans", "cis-trans-atoms", "bph-split", "bph-class-table", "chi-class-units", "chi-dispatch", "degenerate-guard", "torsion-returned", "torsion-wrapper", "interstem-points", "lookup-current-state", "borrowed-array-write"}
     check_function(chk, T1, "calculate_torsion_angle_coords")
     check_function(chk, T2, "calculate_torsion_angle")
     check_users(chk)
